@@ -146,7 +146,7 @@ def multiroot_case(rng):
         args = rng.sample(files, rng.randint(1, len(files)))
     pkg = rng.choice([None, None, "p", "p.q", "q", "p.__init__"])
     return Case(entries=ents, args=args, cwd=cwd, mypy_path=mp, ns=ns, epb=epb, via_env=rng.random() < 0.25, pkg=pkg,
-                kind="multiroot:" + style)
+                kind="multiroot:" + style, abs_args=rng.random() < 0.3)
 
 
 def _consistent(ents):
@@ -257,5 +257,5 @@ def cases_for_tree(rng, entries, nconf: int, nstyles: int, kind: str, pkg_prob: 
             if rng.random() < pkg_prob:
                 pkg = rng.choice(["r", "a", "b", "r.a", "a.b", "a.a"])
             out.append(Case(entries=list(ents), args=list(args), cwd=cwd, mypy_path=list(mp), ns=ns, epb=epb,
-                            via_env=rng.random() < 0.25, pkg=pkg, kind=kind + ":" + style))
+                            via_env=rng.random() < 0.25, pkg=pkg, kind=kind + ":" + style, abs_args=rng.random() < 0.3))
     return out
